@@ -31,12 +31,13 @@ def publish_rejected(request: Ref['mqtt.pdu.PUBLISH']) -> bool:
 @contract('mqtt.client.pubsubs.MQTTProtocol.doPublish', props=['C05', 'C10', 'C17', 'C20', 'C18', 'C02'])
 def _(self: Ref['mqtt.client.pubsubs.MQTTProtocol'], request: Ref['mqtt.pdu.PUBLISH']) -> Ref['Deferred']:
     requires(is_obj(self.addr))
-    requires(inv(self) and is_list_bytes(self.transport.tr_out) and is_none(self.g_firing))
+    requires(inv(self) and is_list_bytes(self.transport.tr_out) and is_none(self.g_firing) and isa(self._pingReq, 'mqtt.pdu.PINGREQ'))
     requires(publish_request(request))
     modifies(all_but(KEEP_API))
     ensures(inv(self) and is_list_bytes(self.transport.tr_out))
     ensures(implies(old(alarms_set(self)), alarms_set(self)))
-    ensures(is_bool(result.d_fired))
+    ensures(is_bool(result.d_fired) and not (result.d_val == exc('MQTTStateError')))
+    ensures(unchanged(self._pingReq.alarm))
     # rejected up front: a failed Deferred, nothing written, nothing queued
     ensures(implies(publish_rejected(request), result.d_fired and not result.d_ok and is_exc(result.d_val)
                     and out(self) == old(out(self)) and dq_tail(Q(self)) == old(dq_tail(Q(self)))
